@@ -234,3 +234,50 @@ theorem top2Spec_cases (ds : List K) :
 
 end Spec
 end M3d.SolidAlg
+
+/-! ### `SmoothJoinV2`: the distances evolve exactly as in `SmoothJoin`; the normals ride along -/
+namespace M3d.SolidAlg
+section V2
+variable {α E : Type} [LE α] [DecidableLE α]
+
+theorem step_key (key : E → Option α) (i : Nat) (st : E × E) (e : E) :
+    Prod.map key key (step key i st e) = step (E := Option α) id i (Prod.map key key st) (key e) := by
+  obtain ⟨c0, c1⟩ := st
+  simp only [step, ins, Prod.map, id]
+  split_ifs <;> rfl
+
+theorem stepFold_key (key : E → Option α) (i : Nat) (st : E × E) (l : List E) :
+    Prod.map key key (stepFold key i st l) = stepFold (E := Option α) id i (Prod.map key key st) (l.map key) := by
+  induction l generalizing i st with
+  | nil => rfl
+  | cons e es ih => simp only [stepFold, List.map_cons]; rw [ih, step_key]
+
+/-- Every slot holds the initial value or one of the operands' answers. -/
+theorem step_mem (key : E → Option α) (i : Nat) (st : E × E) (e : E) :
+    ((step key i st e).1 = st.1 ∨ (step key i st e).1 = st.2 ∨ (step key i st e).1 = e) ∧
+    ((step key i st e).2 = st.1 ∨ (step key i st e).2 = st.2 ∨ (step key i st e).2 = e) := by
+  obtain ⟨c0, c1⟩ := st
+  simp only [step, ins]
+  split_ifs <;> simp
+
+theorem stepFold_mem (key : E → Option α) (i : Nat) (st : E × E) (l : List E) :
+    ((stepFold key i st l).1 = st.1 ∨ (stepFold key i st l).1 = st.2 ∨ (stepFold key i st l).1 ∈ l) ∧
+    ((stepFold key i st l).2 = st.1 ∨ (stepFold key i st l).2 = st.2 ∨ (stepFold key i st l).2 ∈ l) := by
+  induction l generalizing i st with
+  | nil => simp [stepFold]
+  | cons e es ih =>
+    simp only [stepFold]
+    have h := ih (i + 1) (step key i st e)
+    have hs := step_mem key i st e
+    constructor
+    · rcases h.1 with h1 | h1 | h1
+      · rw [h1]; rcases hs.1 with h2 | h2 | h2 <;> simp [h2]
+      · rw [h1]; rcases hs.2 with h2 | h2 | h2 <;> simp [h2]
+      · simp [h1]
+    · rcases h.2 with h1 | h1 | h1
+      · rw [h1]; rcases hs.1 with h2 | h2 | h2 <;> simp [h2]
+      · rw [h1]; rcases hs.2 with h2 | h2 | h2 <;> simp [h2]
+      · simp [h1]
+
+end V2
+end M3d.SolidAlg
